@@ -445,7 +445,7 @@ pub fn warmups() -> Vec<(&'static str, Vec<Ev>)> {
     ]
 }
 
-fn bfs(cfg: Config, warm_name: &str, warm: &[Ev], depth: usize, cap_states: usize, acc: &mut Acc) {
+fn bfs(cfg: Config, warm_name: &str, warm: &[Ev], depth: usize, cap_states: usize, deadline: std::time::Instant, acc: &mut Acc) {
     let mut seen: HashSet<u64> = HashSet::new();
     let mut frontier: VecDeque<Vec<Ev>> = VecDeque::new();
     let w0 = build(cfg, warm, &[]);
@@ -453,6 +453,12 @@ fn bfs(cfg: Config, warm_name: &str, warm: &[Ev], depth: usize, cap_states: usiz
     frontier.push_back(vec![]);
     let mut max_depth = 0;
     while let Some(hist) = frontier.pop_front() {
+        if std::time::Instant::now() > deadline {
+            // wall cap: everything up to the depth of the popped history minus one was covered completely
+            acc.capped_cases += 1;
+            acc.count(&format!("bfs_jobs_stopped_by_wall_cap_while_expanding_depth_{}", hist.len()), 1);
+            return;
+        }
         let mut w = build(cfg, warm, &hist);
         if !w.violations.is_empty() {
             continue;
@@ -579,7 +585,7 @@ pub fn run(args: &Args) -> i32 {
         "refimpl::qpack dynamic-table decoder (self-tested on RFC 9204 Appendix B) is the oracle; both tables are created with the configured capacity (no Set Dynamic Table Capacity instruction), as the repository's own tests do".into(),
         "the stateful codec is not wired into connections at the pinned commit; it is driven through the verif-hooks re-exports".into(),
     ];
-    rep.bound_note = format!("BFS depth {depth} per (configuration, start state); long workload 40 sections with <= 2 deviations");
+    rep.bound_note = format!("BFS depth {depth} per (configuration, start state), wall cap {} s for the whole run (capped jobs are counted and the run is then not reported as exhaustive); long workload 40 sections with <= 2 deviations", if thorough { 1200 } else { 120 });
     let mut cfgs = Vec::new();
     let (caps, blks): (&[usize], &[usize]) = if thorough { (&[0, 31, 40, 64, 100, 200, 4096], &[0, 1, 2, 100]) } else { (&[0, 31, 40, 100, 4096], &[0, 1, 100]) };
     for &capacity in caps {
@@ -600,10 +606,11 @@ pub fn run(args: &Args) -> i32 {
         jobs.push(Job::Long(*c));
     }
     let cap_states = if thorough { 3_000_000 } else { 150_000 };
+    let deadline = std::time::Instant::now() + std::time::Duration::from_secs(if thorough { 1200 } else { 120 });
     let accs = explore::par::run(&jobs, Acc::new, |_, job, acc| match job {
         Job::Bfs(cfg, wi) => {
             let (name, warm) = warmups()[*wi].clone();
-            bfs(*cfg, name, &warm, depth, cap_states, acc);
+            bfs(*cfg, name, &warm, depth, cap_states, deadline, acc);
         }
         Job::Long(cfg) => {
             let caps = Caps { max_executions: 200_000, ..Caps::default() };
